@@ -16,7 +16,7 @@ LEVEL = "model_checking"
 
 
 def validate(ctx, trace, tag):
-    r = vlib.tlc("SchedTrace.tla", "SchedTrace.cfg", workers=1, timeout=3000, env={"TRACE": trace},
+    r = vlib.tlc("SchedTrace.tla", "SchedTrace.cfg", workers=1, timeout=12000, env={"TRACE": trace},
                  metadir=os.path.join(ctx.out, "tv-" + tag), heap="6g")
     if r.error or r.violated or r.printed("TOOLERR"):
         open(os.path.join(ctx.out, "tv-%s.log" % tag), "w").write(r.out)
@@ -30,7 +30,7 @@ def run(ctx):
     vlib.mc(ctx, "MCPacker.tla", "MCPackerPlain.cfg", workers=4, timeout=900)
     if not q:
         vlib.mc(ctx, "MCPacker.tla", "MCPackerBig.cfg", workers=8, timeout=3000)
-    nscen, nsched = (3, 6) if q else (20, 30)
+    nscen, nsched = (3, 6) if q else (40, 36)
     merged = {}
     for th in ("1", "2", "8"):
         t = os.path.join(ctx.out, "trace-%s.ndjson" % th)
